@@ -503,6 +503,8 @@ class Interp:
             return bool(v.parts)
         if isinstance(v, OutLog):
             return True
+        if isinstance(v, SymDict):
+            return self.ctx.branch(v.n != 0)
         if isinstance(v, (Obj, PyClass, PyFunc, Closure, Bound, Builtin)):
             return True
         if isinstance(v, NotImpl):
@@ -1049,7 +1051,9 @@ class Interp:
                     raise Unsupported('update of a symbolic map that is not a local variable')
                 env.set(t.value.id, SV(spec.pset(o.t, self.as_int(k), v.t), 'pmap'))
                 return
-            if isinstance(o, dict):
+            if isinstance(o, SymDict):
+                o.store(self, k, v)
+            elif isinstance(o, dict):
                 kk = self.dict_key(o, k)
                 o[kk] = v
             elif isinstance(o, list) and isinstance(k, int):
@@ -1274,6 +1278,10 @@ class Interp:
                 return SV(a / b, 'int')
             if isinstance(op, ast.Mod):
                 return SV(a % b, 'int')
+            if isinstance(op, ast.BitAnd):
+                for x, m in ((a, r), (b, l)):
+                    if isinstance(m, int) and not isinstance(m, bool) and m >= 0 and (m & (m + 1)) == 0:
+                        return SV(x % (m + 1), 'int')       # x & (2^k - 1) == x mod 2^k for every python int x
             raise Unsupported(f'symbolic binop {type(op).__name__}')
         if isinstance(l, _OpaqueStr) or isinstance(r, _OpaqueStr):
             return _OpaqueStr()
@@ -1378,6 +1386,10 @@ class Interp:
         return a is b
 
     def contains(self, container, item):
+        if isinstance(container, SymDict):
+            return container.lookup(self, item) is not None
+        if isinstance(container, SV) and container.kind == 'patset':
+            return SV(self.ctx.fresh('bool', 'in_set').t, 'bool')       # an arbitrary set of patterns: membership is unconstrained
         if isinstance(container, SV):
             if container.kind == 'idl':
                 if self.is_pat(item):
@@ -1434,6 +1446,11 @@ class Interp:
         return self.getitem(o, k)
 
     def getitem(self, o, k):
+        if isinstance(o, SymDict):
+            r = o.lookup(self, k)
+            if r is None:
+                raise SymRaise('KeyError')
+            return SV(r, 'int')
         if isinstance(o, SV) and o.kind == 'plist':
             if isinstance(k, int) and k < 0:
                 cur = o.t
@@ -1548,7 +1565,7 @@ class Interp:
             return Bound(o.selfv, m)
         if isinstance(o, SV):
             return _SVMethod(o, name)
-        if isinstance(o, (dict, list, tuple, str, set, frozenset, SStr, OutLog)):
+        if isinstance(o, (dict, list, tuple, str, set, frozenset, SStr, OutLog, SymDict)):
             return _SVMethod(o, name)
         if isinstance(o, _Enum):
             return o.member(name)
@@ -1963,6 +1980,11 @@ class _SVMethod:
             if not it.ctx.branch(spec.tl_has(m, t), 'element present'):
                 raise SymRaise('ValueError', 'not in list')
             return SV(spec.tl_index(m, t), 'int')
+        if isinstance(o, SymDict) and n == 'get':
+            r = o.lookup(it, args[0])
+            return SV(r, 'int') if r is not None else (args[1] if len(args) > 1 else None)
+        if isinstance(o, SymDict):
+            raise Unsupported(f'dict.{n} on the abstract symbol table')
         if isinstance(o, OutLog) and n == 'write':
             o.chunks.append(args[0])
             return None
@@ -2055,6 +2077,54 @@ PTR_NTH = spec.ptl_nth_front
 ISSPACE = z3.Function('isspace', Int, Bool)    # str.isspace on one character (uninterpreted: the spec uses the same predicate)
 
 
+class SymDict:
+    """An ARBITRARY dict[str, int] that is injective onto range(n) (the symbol table), n symbolic: represented by its size and the entries
+    looked at so far.  A key that is none of the known entries is either another existing entry (fresh id j in range(n), different from
+    the known ids) or absent - the run forks.  Sound for code that only uses `in`, [], .get, []= with a new key, and len()."""
+
+    def __init__(self, ctx, n):
+        self.ctx = ctx
+        self.n = n                    # z3 Int
+        self.known = []               # [(key term, id term)]
+        self.absent = []              # key terms known to be absent
+        self.writes = 0
+
+    def lookup(self, it, k):
+        """-> id term or None (absent)"""
+        kt = it.as_int(k)
+        for key, idt in self.known:
+            if self.ctx.branch(key == kt, 'key is a known entry'):
+                return idt
+        for key in self.absent:
+            if self.ctx.branch(key == kt, 'key is known to be absent'):
+                return None
+        if self.ctx.branch(z3.Bool(f'symdict!present!{next(self.ctx.counter)}'), 'key is some other entry of the table'):
+            j = self.ctx.fresh('int', 'entry_id').t
+            self.ctx.assume(z3.And(j >= 0, j < self.n, *[j != i for _, i in self.known]))
+            self.ctx.check_feasible()
+            self.known.append((kt, j))
+            return j
+        self.absent.append(kt)
+        return None
+
+    def store(self, it, k, v):
+        kt = it.as_int(k)
+        for i, (key, idt) in enumerate(self.known):
+            if self.ctx.branch(key == kt, 'key is a known entry'):
+                self.known[i] = (key, it.as_int(v))
+                self.writes += 1
+                return
+        if any(self.ctx.branch(key == kt, 'key is known to be absent') for key in self.absent):
+            self.absent = [a for a in self.absent if not a.eq(kt)]
+        elif self.lookup(it, k) is not None:
+            return self.store(it, k, v)
+        else:
+            self.absent = [a for a in self.absent if not a.eq(kt)]
+        self.known.append((kt, it.as_int(v)))
+        self.n = self.n + 1
+        self.writes += 1
+
+
 class OutLog:
     """an output stream: the sequence of chunks written so far"""
 
@@ -2101,6 +2171,8 @@ def _b_len(it, args, kw):
             lname = {'pmap': 'pm_len_zero', 'plist': 'ptl_len_zero'}.get(v.kind, 'il_len_zero')
             it.ctx.lemma_fact(lname, z3.And(n >= 0, (n == 0) == nil))
             return SV(n, 'int')
+    if isinstance(v, SymDict):
+        return SV(v.n, 'int')
     if isinstance(v, (tuple, list, dict, str, set, frozenset)):
         return len(v)
     if isinstance(v, _Iter):
@@ -2217,6 +2289,8 @@ def _b_reversed(it, args, kw):
     v = args[0]
     if isinstance(v, _MapView) and v.which == 'keys' and ctor_of(it.ctx.nz(v.m.t)) is None:
         return SV(spec.pm_keys_rev(v.m.t), 'idl')
+    if isinstance(v, SV) and v.kind == 'plist':
+        return SV(v.t, 'plist_rev')             # only a loop under contract can run over it
     if isinstance(v, SV) and v.kind in ('str', 'intlist'):
         from . import mmnum
         return SV(mmnum.rev_acc(v.t, IDL.mk('inil')), v.kind)
